@@ -9,6 +9,7 @@ import CoCoVerif.Spec.Tape
 import CoCoVerif.Model.Disk
 import CoCoVerif.Spec.DiskBasic
 import CoCoVerif.Model.Program
+import CoCoVerif.Spec.MC6809
 
 open Lean CoCo
 
@@ -134,8 +135,37 @@ def asmProg (j : Json) : List (String × Json) :=
      ("name", optStr a.name),
      ("image", optHexBytes a.image)])
 
+def intJson (i : Int) : Json := Json.num (JsonNumber.fromInt i)
+def natJ (n : Nat) : Json := Json.num (JsonNumber.fromNat n)
+
+open CoCo.Spec.MC6809 in
+def idxJson : Idx → List (String × Json)
+  | .off reg off ind w => [("k", "off"), ("reg", natJ reg), ("off", intJson off), ("ind", ind), ("w", natJ w)]
+  | .inc1 reg => [("k", "inc1"), ("reg", natJ reg), ("ind", false)]
+  | .inc2 reg ind => [("k", "inc2"), ("reg", natJ reg), ("ind", ind)]
+  | .dec1 reg => [("k", "dec1"), ("reg", natJ reg), ("ind", false)]
+  | .dec2 reg ind => [("k", "dec2"), ("reg", natJ reg), ("ind", ind)]
+  | .acc a reg ind => [("k", "acc"), ("acc", natJ a), ("reg", natJ reg), ("ind", ind)]
+  | .pcr off ind w => [("k", "pcr"), ("off", intJson off), ("ind", ind), ("w", natJ w)]
+  | .extInd a => [("k", "extind"), ("addr", natJ a)]
+
+open CoCo.Spec.MC6809 in
+def operandJson : Operand → List (String × Json)
+  | .none => [("mode", "inh")]
+  | .imm w v => [("mode", "imm"), ("w", natJ w), ("v", natJ v)]
+  | .dir a => [("mode", "dir"), ("a", natJ a)]
+  | .ext a => [("mode", "ext"), ("a", natJ a)]
+  | .rel w d => [("mode", "rel"), ("w", natJ w), ("d", intJson d)]
+  | .idx i => ("mode", "idx") :: idxJson i
+  | .pair s t => [("mode", "pair"), ("src", natJ s), ("dst", natJ t)]
+  | .list m => [("mode", "list"), ("mask", natJ m)]
+
 def handle (j : Json) : List (String × Json) :=
   match getStr j "op" with
+  | "spec.decode" =>
+    match Spec.MC6809.decode (ofHex (getStr j "hex")) with
+    | some (i, n) => [("ok", Json.bool true), ("n", natJ n), ("opn", Json.str i.op)] ++ operandJson i.operand
+    | none => [("ok", false)]
   | "asm.prog" => asmProg j
   | "asm.value" =>
     match Asm.create 4 (getStr j "s").toList (getBool j "isStr") (getBool j "is16") (getBool j "defExt") with
